@@ -155,13 +155,38 @@ def main(argv):
                         ck.violation("assembly-crash", "the real HSolver (in-process) failed on a generated problem (rc=%d): %s %s" % (r.returncode, r.stdout[-200:], r.stderr[-300:]),
                                      dict(files=run.files()))
                     else:
-                        m = subprocess.run([mx, "assemble-h"], input="\n".join(proto) + "\n", stdout=subprocess.PIPE, text=True, timeout=600)
-                        d = C03.compare_systems(open(dump).read().splitlines(), m.stdout.splitlines())
-                        stats["systems_compared"] = stats.get("systems_compared", 0) + 1
-                        stats["entries_compared"] = stats.get("entries_compared", 0) + sum(1 for l in m.stdout.splitlines() if l.startswith("E "))
-                        if d:
-                            ck.obligation_broken("correspondence assemble-h: HSolver::AnalyzeProblem (first pass) vs Model/HSolver.lean (%s)" % d["what"],
-                                                 dict(first_difference=d, files=run.files()))
+                        # the dump is a sequence SYS_1 SOL_1 SYS_2 SOL_2 …: pass k is assembled about the iterate SOL_(k-1)
+                        blocks, cur = [], None
+                        for l_ in open(dump).read().splitlines():
+                            if l_.startswith("SYS "):
+                                cur = ("sys", [l_]); blocks.append(cur)
+                            elif l_.startswith("SOL "):
+                                cur = ("sol", []); blocks.append(cur)
+                            elif cur is not None:
+                                cur[1].append(l_)
+                        syss = [b_[1] for b_ in blocks if b_[0] == "sys" and b_[1] and b_[1][-1] == "END"]
+                        sols = [[x_.split()[2] for x_ in b_[1] if x_.startswith("V ")] for b_ in blocks if b_[0] == "sol"]
+                        npass = min(len(syss), len(sols) + 1, 4)
+                        req = list(proto)      # ends with "run"
+                        for kp in range(1, npass):
+                            req += ["vo " + " ".join(sols[kp - 1]), "run"]
+                        m = subprocess.run([mx, "assemble-h"], input="\n".join(req) + "\n", stdout=subprocess.PIPE, text=True, timeout=900)
+                        mblocks, curm = [], None
+                        for l_ in m.stdout.splitlines():
+                            if l_.startswith("SYS "):
+                                curm = [l_]; mblocks.append(curm)
+                            elif curm is not None:
+                                curm.append(l_)
+                        for kp in range(npass):
+                            d = C03.compare_systems(syss[kp], mblocks[kp] if kp < len(mblocks) else [])
+                            stats["systems_compared"] = stats.get("systems_compared", 0) + 1
+                            if kp > 0:
+                                stats["later_passes_compared"] = stats.get("later_passes_compared", 0) + 1
+                            stats["entries_compared"] = stats.get("entries_compared", 0) + sum(1 for l in syss[kp] if l.startswith("E "))
+                            if d:
+                                ck.obligation_broken("correspondence assemble-h: HSolver::AnalyzeProblem (pass %d) vs Model/HSolver.lean (%s)" % (kp + 1, d["what"]),
+                                                     dict(first_difference=d, nonlinear_pass=kp + 1, files=run.files()))
+                                break
                 except subprocess.TimeoutExpired:
                     ck.violation("assembly-timeout", "the real HSolver (in-process) did not finish within 600 s", dict(files=run.files()))
                 run.restore_mesh()
